@@ -62,6 +62,15 @@ impl FdGen {
             let pos = if r.chance(2, 3) { 0 } else { r.below(body.len() + 1) };
             body.insert(pos, PG::InFd(T::Var(v), self.domain(r)));
         }
+        // a variable may be given a domain more than once: the domains intersect (sparse with holes against sparse,
+        // sparse against interval, either order — seeded changes C16-a, C04-f, C17-e)
+        if r.chance(1, 3) {
+            for _ in 0..1 + r.below(2) {
+                let v = r.below(self.nv);
+                let pos = r.below(body.len() + 1);
+                body.insert(pos, PG::InFd(T::Var(v), self.domain(r)));
+            }
+        }
         body
     }
 }
